@@ -272,6 +272,7 @@ namespace hv
                     for (auto &d : split(st.tok[1], ',')) if (!d.empty()) cfg.tape.push_back(std::stoll(d));
             }
             else if (k == "emit_tape") cfg.record_tape = true;
+            else if (k == "instr") cfg.instr_interval = std::stoi(st.tok.at(1));   // instrumented build: extra pre-emption points
             else if (k == "maxsteps") cfg.max_steps = std::stoll(st.tok.at(1));
         }
         g_start_wall = cfg.start_wall_us;
@@ -355,7 +356,7 @@ namespace hv
         }
         Line("end").str("run", "done").i("steps", s.steps).i("preemptions", s.preemptions).i("clock_jumps", s.clock_jumps).i("forced_timeouts", s.forced_timeouts)
             .i("spurious", s.spurious).i("stalls", s.stalls).i("late", s.late).i("starved", s.starved).i("mutex_blocks", s.mutex_blocks)
-            .i("cond_waits", s.cond_waits).i("timed_waits", s.timed_waits).i("notifies", s.notifies).i("sim_elapsed_us", sim::now_us() - g_start_wall)
+            .i("cond_waits", s.cond_waits).i("timed_waits", s.timed_waits).i("notifies", s.notifies).i("instr_points", s.instr_points).i("sim_elapsed_us", sim::now_us() - g_start_wall)
             .str("trace_hash", std::to_string(sim::trace_hash())).str("trace", tr).emit();
         return 0;
     }
